@@ -76,6 +76,18 @@ theorem C13_total_resolve1 (g : Graph) (x : Obj) : ∃ v, resolve1 false g x = .
   · exact h
   · exact absurd h (key _ _ _)
 
+/-- Bounded work in the unit the document pays for: `resolve1` calls `getobj` (which may parse an object or unpack
+an object stream) at most `number of distinct object numbers + 1` times — every followed reference is a new number,
+and all but the last exist.  The harness counts the calls of the implementation (`calls` op): equal to the model's
+count, hence within this bound. -/
+theorem C13_calls_resolve1 (g : Graph) (x : Obj) : resolve1Calls g x ≤ (objids g).length + 1 := by
+  have := resolve1CallsFuel_le C13_guards_present.1 g (g.length + 1) [] x List.nodup_nil (by intro n hn; cases hn)
+  simpa [resolve1Calls] using this
+
+/-- Non-vacuity: the bound is attained by a chain that ends at a missing object; a cycle stops after one round. -/
+example : resolve1Calls [(1, .ref 2), (2, .ref 3)] (.ref 1) = 3 ∧ (objids [(1, .ref 2), (2, .ref 3)]).length = 2 := by decide
+example : resolve1Calls [(6, .ref 7), (7, .ref 6), (7, .int 1)] (.ref 6) = 2 := by decide
+
 /-- Non-vacuity: the pre-registered defect `6 0 obj 6 0 R` and a 2-cycle now resolve to null. -/
 example : resolve1 false [(6, .ref 6)] (.ref 6) = .ok .null := by rfl
 example : resolve1 false [(6, .ref 7), (7, .ref 6)] (.ref 6) = .ok .null := by rfl
@@ -313,6 +325,19 @@ theorem C13_bound_ascii85decode (data : Bytes) :
   unfold Filters.ascii85decode at h
   rw [Filters.a85decode_err _ _ h]; decide
 
+/-- LZW: a code emits a table entry, and entries grow by one byte per code, so the output is at most quadratic in
+the number of codes: `(8·|data| + 1)·(8·|data| + 2)` bytes (fuel of the loop = one unit per code; C03's
+`lzwdecode_fuel` shows it suffices).  The only error is IndexError (code beyond the table, or before the first
+clear code), caught by `PDFStream.decode`; EOF and CorruptDataError end the loop inside `LZWDecoder.run`. -/
+theorem C13_bound_lzwdecode (data : Bytes) :
+    (∀ out, Filters.lzwdecode data = .ok out → out.length ≤ (8 * data.length + 1) * (8 * data.length + 2)) ∧
+    (∀ e, Filters.lzwdecode data = .error e → e.isDecodeError = true) := by
+  refine ⟨fun out h => ?_, fun e h => ?_⟩
+  · have := Filters.lzwRunB_len _ _ _ _ _ 1 _ Filters.lzwInit_bound h
+    have e : 1 + (8 * data.length + 1) = 8 * data.length + 2 := by omega
+    rwa [e] at this
+  · rw [Filters.lzwRunB_err _ _ _ _ _ _ h]; decide
+
 /-- `PDFStream.decode` (non-STRICT), whole filter chain with predictors, on every payload and every
 Filter/DecodeParms value of the model: it returns data, or raises a `PDFException` (PDFValueError for an unknown
 predictor, PDFNotImplementedError for an unsupported filter; `outOfModel` marks CCITTFax, which C02 models) —
@@ -341,5 +366,8 @@ example : Filters.asciihexdecode [52, 62] = .ok [64] := by decide
 example : (Filters.ascii85decode [122]).map List.length = .ok (4 : Nat) := by decide
 example : Filters.ascii85decode [118] = .error .valueError := by decide
 example : Filters.streamDecode id (.name [82, 76]) .absent [2, 65] = .ok [] := by decide
+example : Filters.lzwdecode [0x00, 0x80] = .error .indexError := by decide
+example : Filters.lzwdecode [0x80, 0x0b, 0x60, 0x50, 0x22, 0x0c, 0x0c, 0x85, 0x01] = .ok [45, 45, 45, 45, 45, 65, 45, 45, 45, 66] := by
+  decide +kernel
 
 end PdfVerif.Props.C13
